@@ -26,7 +26,12 @@ pub fn run(ctx: &mut Ctx, _replay: Option<&str>) {
         let now = now();
         let m = f.issue.claims.as_object_mut().unwrap();
         m.remove("nbf");
-        let (exp_class, exp_ok): (&str, bool) = match r.below(9) {
+        let (exp_class, exp_ok): (&str, bool) = match r.below(13) {
+            // number forms: NumericDate may be any JSON number (RFC 7519); tiny values lie decades in the past
+            9 => { m.insert("exp".into(), json!(*r.pick(&[0u64, 1, 5, 29, 30, 31, 59, 60, 61, 100, 3600]))); ("epoch-small", false) }
+            10 => { m.insert("exp".into(), json!((now + 3600 + r.next() % 100000) as f64 + 0.5)); ("future-fraction", true) }
+            11 => { m.insert("exp".into(), json!(*r.pick(&[1.9e9f64, 2.5e9, 3.0e9, 1900000000.0, 4.0e9]))); ("future-float-form", true) }
+            12 => { m.insert("exp".into(), json!((now - 120 - r.next() % 100000) as f64 - 0.25)); ("past-fraction", false) }
             0 => { m.remove("exp"); ("absent", false) }
             1 => { m.insert("exp".into(), Value::Null); ("null", false) }
             2 => { m.insert("exp".into(), json!(format!("{}", now + 5000))); ("string", false) }
